@@ -26,6 +26,21 @@ type notsigCase struct {
 	Timers  bool
 	Now     uint64
 	SigLast bool // put a SIG(0)-shaped record (type 24) last, the closest relative of a TSIG
+	// Last appends one more additional record, so that ARCOUNT > 0 and the record the library's
+	// TSIG walk ends on is of a chosen kind: "opt" (what almost every real message ends with), "a",
+	// "txt", "unk" (RFC 3597 type 65280), "empty-rdata" (an A-typed record of class NONE without
+	// RDATA, as in an UPDATE prerequisite); "" leaves the generated message alone
+	Last string
+}
+
+// acceptAll is the most permissive TsigProvider there can be (a test double, a provider that
+// delegates the decision elsewhere): it calls every MAC right. What it is shown is recorded.
+type acceptAll struct{ seen *[]dns.TSIG }
+
+func (p acceptAll) Generate(msg []byte, t *dns.TSIG) ([]byte, error) { return []byte{1}, nil }
+func (p acceptAll) Verify(msg []byte, t *dns.TSIG) error {
+	*p.seen = append(*p.seen, *t)
+	return nil
 }
 
 // keyring is a harness-side TsigProvider of the obvious shape: secrets by key name – including the
@@ -63,6 +78,31 @@ func checkNoTsig(c notsigCase) error {
 		m.Extra = append(m.Extra, &dns.SIG{RRSIG: dns.RRSIG{Hdr: dns.RR_Header{Name: ".", Rrtype: dns.TypeSIG, Class: dns.ClassANY}, Algorithm: 15, SignerName: "k.", KeyTag: 1,
 			Signature: base64.StdEncoding.EncodeToString(make([]byte, 64))}})
 	}
+	switch c.Last {
+	case "opt":
+		hasOpt := false
+		for _, rr := range m.Extra {
+			hasOpt = hasOpt || rr.Header().Rrtype == dns.TypeOPT
+		}
+		if !hasOpt {
+			m.SetEdns0(1232, true)
+		} else if n := len(m.Extra); n > 0 { // move the OPT to the end
+			for i, rr := range m.Extra {
+				if rr.Header().Rrtype == dns.TypeOPT {
+					m.Extra[i], m.Extra[n-1] = m.Extra[n-1], m.Extra[i]
+					break
+				}
+			}
+		}
+	case "a":
+		m.Extra = append(m.Extra, &dns.A{Hdr: dns.RR_Header{Name: "ns.example.", Rrtype: dns.TypeA, Class: dns.ClassINET, Ttl: 300}, A: []byte{192, 0, 2, 53}})
+	case "txt":
+		m.Extra = append(m.Extra, &dns.TXT{Hdr: dns.RR_Header{Name: ".", Rrtype: dns.TypeTXT, Class: dns.ClassANY}, Txt: []string{"hmac-sha256.", ""}})
+	case "unk":
+		m.Extra = append(m.Extra, &dns.RFC3597{Hdr: dns.RR_Header{Name: "k.", Rrtype: 65280, Class: dns.ClassANY}, Rdata: "0b686d61632d73686132353600"})
+	case "empty-rdata":
+		m.Extra = append(m.Extra, &dns.ANY{Hdr: dns.RR_Header{Name: "k.", Rrtype: dns.TypeA, Class: dns.ClassNONE}})
+	}
 	packed, err := m.Pack()
 	if err != nil {
 		return nil
@@ -77,7 +117,7 @@ func checkNoTsig(c notsigCase) error {
 		}
 	}
 	pbt.Note(append([]byte(fmt.Sprintf("%x|%x|%v|", c.Secret, c.ReqMAC, c.Timers)), packed...), mp.AR > 0,
-		fmt.Sprintf("additional=%d", min(mp.AR, 3)), fmt.Sprintf("siglast=%v", c.SigLast), fmt.Sprintf("timers=%v", c.Timers))
+		fmt.Sprintf("additional=%d", min(mp.AR, 3)), fmt.Sprintf("siglast=%v", c.SigLast), fmt.Sprintf("timers=%v", c.Timers), "last="+lastClass(c, mp))
 	if err := libVerify(packed, c.Secret, c.ReqMAC, c.Timers, c.Now); err == nil {
 		return pbt.Errf("TsigVerify reported a message without TSIG as verified (%d additional records, secret %d octets, timers only %v)", mp.AR, len(c.Secret), c.Timers)
 	}
@@ -85,7 +125,37 @@ func checkNoTsig(c notsigCase) error {
 	if err := dns.VerifTsigVerifyAt(append([]byte(nil), packed...), ring, hex.EncodeToString(c.ReqMAC), c.Timers, c.Now); err == nil {
 		return pbt.Errf("tsigVerify with a key-ring provider holding a secret for the empty name reported a message without TSIG as verified (%d additional records)", mp.AR)
 	}
+	// a provider that calls every MAC right: the message still has no TSIG, so the answer must be an
+	// error (which one is not part of the statement - the pinned library hands such a provider an
+	// all-zero TSIG when ARCOUNT > 0 and then fails its time check)
+	var seen []dns.TSIG
+	perr := dns.VerifTsigVerifyAt(append([]byte(nil), packed...), acceptAll{&seen}, hex.EncodeToString(c.ReqMAC), c.Timers, c.Now)
+	if len(seen) > 0 {
+		pbt.Class("accept-all-provider-was-consulted")
+	}
+	if perr == nil {
+		if c.Now == 0 {
+			// only the hook can set the verifier's clock to 1970-01-01T00:00:00Z, where the all-zero
+			// TSIG (time signed 0, fudge 0) is "timely"; TsigVerifyWithProvider reads the wall clock
+			pbt.Class("accept-all-provider-at-clock-0(counted, not asserted)")
+			return nil
+		}
+		return pbt.Errf("tsigVerify with a provider that accepts every MAC reported a message without TSIG as verified (%d additional records, last one %s, clock %d)", mp.AR, lastClass(c, mp), c.Now)
+	}
 	return nil
+}
+
+func lastClass(c notsigCase, mp *ref.Map) string {
+	if mp.AR == 0 {
+		return "none"
+	}
+	if c.Last != "" {
+		return c.Last
+	}
+	if c.SigLast {
+		return "sig"
+	}
+	return "generated"
 }
 
 func genNoTsig(t *rapid.T) notsigCase {
@@ -97,9 +167,41 @@ func genNoTsig(t *rapid.T) notsigCase {
 	c.Timers = rapid.Bool().Draw(t, "timers")
 	c.Now = rapid.Uint64Range(0, 1<<40).Draw(t, "now")
 	c.SigLast = rapid.IntRange(0, 3).Draw(t, "siglast") == 0
+	if !c.SigLast {
+		c.Last = rapid.SampledFrom([]string{"", "", "opt", "opt", "a", "txt", "unk", "empty-rdata"}).Draw(t, "last")
+	}
+	if rapid.IntRange(0, 3).Draw(t, "realclock") > 0 {
+		c.Now = rapid.Uint64Range(1_500_000_000, 2_000_000_000).Draw(t, "wallclock")
+	}
 	return c
 }
 
 func init() {
 	pbt.Register(pbt.Sub[notsigCase]{Name: "no-tsig-never-verifies", Weight: 4, Gen: genNoTsig, Check: checkNoTsig})
+	// regression probe (nothing is listed under this id: it has to stay silent): the messages a
+	// reviewer pointed at - ARCOUNT > 0 and no TSIG, the last additional record an OPT / A / SIG -
+	// through the oracle above and through the public entry points with the wall clock
+	pbt.Probe("notsig-arcount-without-tsig", func() error {
+		q := msgspec.Spec{ID: 0x1234, RD: true, Names: []string{"www.example.org."}, Question: []msgspec.Q{{Name: 0, Type: 1, Class: 1}}}
+		for _, c := range []notsigCase{{Msg: q, Last: "opt"}, {Msg: q, Last: "a"}, {Msg: q, SigLast: true}, {Msg: q, Last: "empty-rdata"}} {
+			c.Secret, c.Now = []byte("0123456789abcdef"), 1_700_000_000
+			if err := checkNoTsig(c); err != nil {
+				return err
+			}
+		}
+		m := q.Build()
+		m.SetEdns0(1232, true)
+		packed, err := m.Pack()
+		if err != nil {
+			return err
+		}
+		var seen []dns.TSIG
+		if dns.TsigVerifyWithProvider(append([]byte(nil), packed...), acceptAll{&seen}, "", false) == nil {
+			return pbt.Errf("TsigVerifyWithProvider with a provider that accepts every MAC reported a query with an OPT and no TSIG as verified")
+		}
+		if dns.TsigVerify(append([]byte(nil), packed...), base64.StdEncoding.EncodeToString([]byte("0123456789abcdef")), "", false) == nil {
+			return pbt.Errf("TsigVerify reported a query with an OPT and no TSIG as verified")
+		}
+		return nil
+	})
 }
